@@ -475,7 +475,7 @@ def r_mode_copy(ctx):
     penalties, baud rate, OSNR threshold, tx OSNR, bit rate, format)"""
     from .common import mode_copy_rule
     mode_copy_rule(ctx, 'R8.mode-copy', 'the verdict / the reverse direction would be computed with figures of another mode')
-    ctx.need('R8.mode-copy', 3)
+    ctx.need('R8.mode-copy', 2)
 
 
 def rn_arg_roles(ctx):
